@@ -1,6 +1,7 @@
 package main
 
 import (
+	"strconv"
 	"fmt"
 	"go/constant"
 	"go/token"
@@ -967,8 +968,82 @@ func (fc *funcCtx) binTerm(st *State, op token.Token, a, b Sc, t types.Type, pos
 			return Sc{or(a.T, b.T), SBool}
 		}
 	}
+	if a.S == SInt && b.S == SInt {
+		switch op {
+		case token.AND, token.OR, token.XOR, token.AND_NOT, token.SHL, token.SHR:
+			return fc.bitOp(st, op, a, b, t)
+		}
+	}
 	fc.abort("unsupported binary operator %s on %s", op, a.S)
 	return Sc{}
+}
+
+// bitOp: bitwise operators. Exact for an unsigned (or byte) operand combined with a
+// non-negative constant below 2^20 — written out bit by bit in integer arithmetic — and for
+// shifts of unsigned values by constants; anything else is an arbitrary value of the type
+// (sound, imprecise; noted in the evidence).
+func (fc *funcCtx) bitOp(st *State, op token.Token, a, b Sc, t types.Type) Sc {
+	unsigned := false
+	if bt, ok := t.Underlying().(*types.Basic); ok && bt.Info()&types.IsUnsigned != 0 {
+		unsigned = true
+	}
+	lit := func(x Sc) (int64, bool) {
+		v, err := strconv.ParseInt(x.T, 10, 64)
+		return v, err == nil && v >= 0
+	}
+	bit := func(x string, k uint) string { return app("mod", app("div", x, smtInt(int64(1)<<k)), "2") }
+	if unsigned {
+		if op == token.SHL || op == token.SHR {
+			if k, ok := lit(b); ok && k < 62 {
+				if op == token.SHL {
+					return fc.wrap(st, Sc{app("*", a.T, smtInt(int64(1)<<uint(k))), SInt}, t)
+				}
+				return Sc{app("div", a.T, smtInt(int64(1)<<uint(k))), SInt}
+			}
+		} else {
+			x, c, ok := a, int64(0), false
+			if v, isLit := lit(b); isLit {
+				c, ok = v, true
+			} else if v, isLit := lit(a); isLit && op != token.AND_NOT {
+				x, c, ok = b, v, true
+			}
+			if ok && c < 1<<20 {
+				// x op c, bit by bit over the set bits of c
+				var andTerms, clearTerms []string
+				for k := uint(0); k < 20; k++ {
+					if c&(1<<k) != 0 {
+						andTerms = append(andTerms, app("*", bit(x.T, k), smtInt(int64(1)<<k)))
+						clearTerms = append(clearTerms, app("*", app("-", "1", bit(x.T, k)), smtInt(int64(1)<<k)))
+					}
+				}
+				sum := func(ts []string) string {
+					if len(ts) == 0 {
+						return "0"
+					}
+					if len(ts) == 1 {
+						return ts[0]
+					}
+					return app("+", ts...)
+				}
+				switch op {
+				case token.AND:
+					return Sc{sum(andTerms), SInt}
+				case token.AND_NOT:
+					return Sc{app("-", x.T, sum(andTerms)), SInt}
+				case token.OR:
+					return Sc{app("+", x.T, sum(clearTerms)), SInt}
+				case token.XOR:
+					return Sc{app("-", app("+", x.T, sum(clearTerms)), sum(andTerms)), SInt}
+				}
+			}
+		}
+	}
+	fc.e.note("bitwise " + op.String() + " outside the exact cases (unsigned operand with a small constant): result is an arbitrary value in " + shortKey(fc.key))
+	r := st.freshConst("bits", SInt)
+	if unsigned {
+		st.assume(app("<=", "0", r))
+	}
+	return fc.wrap(st, Sc{r, SInt}, t)
 }
 
 // wrap models fixed-width unsigned arithmetic for small types (byte): results
